@@ -177,8 +177,12 @@ class Built:
     def write_file(self, f):
         path = os.path.join(self.tmpdir, f['name'])
         os.makedirs(os.path.dirname(path), exist_ok=True)
+        data = file_disk_bytes(f)
         with open(path, 'wb') as fh:
-            fh.write(file_disk_bytes(f))
+            fh.write(data)
+        if (len(data) + sum(data[:16])) % 3 == 0:
+            # metadata is not content: some files carry a modification time in the year 2000
+            os.utime(path, (946684800, 946684800))
         if path not in self.paths:
             self.paths.append(path)
         return path
